@@ -73,6 +73,7 @@ static int include_next_idx;
 
 static Token *preprocess2(Token *tok);
 static Macro *find_macro(Token *tok);
+static void inherit_flags(Token *tok, Token *macro_token, bool is_empty);
 
 static bool is_hash(Token *tok) {
   return tok->at_bol && equal(tok, "#");
@@ -552,9 +553,12 @@ static char *join_tokens(Token *tok, Token *end) {
 static Token *stringize(Token *hash, Token *arg) {
   // Create a new string token. We need to set some value to its
   // source location for error reporting function, so we use a macro
-  // name token as a template.
+  // name token as a template. The new token takes the place of `#`
+  // in the line.
   char *s = join_tokens(arg, NULL);
-  return new_str_token(s, hash);
+  Token *tok = new_str_token(s, hash);
+  inherit_flags(tok, hash, false);
+  return tok;
 }
 
 // Concatenate two tokens to create a new token.
@@ -566,6 +570,9 @@ static Token *paste(Token *lhs, Token *rhs) {
   Token *tok = tokenize(new_file(lhs->file->name, lhs->file->file_no, buf));
   if (tok->next->kind != TK_EOF)
     error_tok(lhs, "pasting forms '%s', an invalid token", buf);
+
+  // The new token takes the place of the left operand in the line.
+  inherit_flags(tok, lhs, false);
   return tok;
 }
 
@@ -666,22 +673,32 @@ static Token *subst(Token *tok, MacroArg *args, bool is_objlike) {
 
         // Placemarker ## #param is the stringized parameter.
         if (equal(rhs, "#")) {
-          tok = rhs;
+          MacroArg *arg3 = find_arg(args, rhs->next);
+          if (!arg3)
+            error_tok(rhs->next, "'#' is not followed by a macro parameter");
+          cur = cur->next = stringize(tok, arg3->tok);
+          tok = rhs->next->next;
           continue;
         }
 
+        // The result takes the place of the left operand in the line.
+        Token *last = cur;
         if (arg2) {
           for (Token *t = arg2->tok; t->kind != TK_EOF; t = t->next)
             cur = cur->next = copy_token(t);
         } else {
           cur = cur->next = copy_token(rhs);
         }
+        if (last != cur)
+          inherit_flags(last->next, tok, false);
         tok = rhs->next;
         continue;
       }
 
+      Token *last = cur;
       for (Token *t = arg->tok; t->kind != TK_EOF; t = t->next)
         cur = cur->next = copy_token(t);
+      inherit_flags(last->next, tok, false);
       tok = tok->next;
       continue;
     }
@@ -691,10 +708,14 @@ static Token *subst(Token *tok, MacroArg *args, bool is_objlike) {
     // in which parameters, # and ## are processed as in the rest of
     // the replacement list.
     if (equal(tok, "__VA_OPT__") && equal(tok->next, "(")) {
+      Token *start = tok;
+      Token *last = cur;
       MacroArg *arg = read_macro_arg_one(&tok, tok->next->next, true);
       if (has_varargs(args))
         for (Token *t = subst(arg->tok, args, false); t->kind != TK_EOF; t = t->next)
           cur = cur->next = t;
+      if (last != cur)
+        inherit_flags(last->next, start, false);
       tok = skip(tok, ")");
       continue;
     }
@@ -762,6 +783,7 @@ static bool expand_macro(Token **rest, Token *tok) {
   if (m->handler) {
     *rest = m->handler(tok);
     (*rest)->next = tok->next;
+    inherit_flags(*rest, tok, false);
 #ifdef CHIBICC_VERIF
     if (vtrace_on())
       vtrace("\"e\":\"exp\",\"k\":\"dyn\",\"m\":\"%s\",\"hin\":%s", m->name, vt_hideset(tok->hideset));
